@@ -283,9 +283,12 @@ pub enum Path {
     Cleartext,
     CertificatePublic,
     CertificateSecret,
+    /// a certification over the user id of ANOTHER key, of the other key version: the
+    /// signature version goes with the signer's key version, not the certified key's
+    ThirdPartyCertification,
 }
 
-pub const PATHS: [Path; 7] = [
+pub const PATHS: [Path; 8] = [
     Path::Detached,
     Path::Certification,
     Path::PrefixedMessage,
@@ -293,6 +296,7 @@ pub const PATHS: [Path; 7] = [
     Path::Cleartext,
     Path::CertificatePublic,
     Path::CertificateSecret,
+    Path::ThirdPartyCertification,
 ];
 
 #[derive(Clone, Debug, Hash, Serialize, Deserialize)]
@@ -340,7 +344,12 @@ fn verify_on_path(c: &SigCase) -> Result<Result<(), String>, String> {
     uid_prefix.extend_from_slice(&(uid_body.len() as u32).to_be_bytes());
     let doc = b"document bytes";
     let canon_text = crate::reference::canon::csf_signed_form(TEXT.as_bytes());
+    // the certified key of the third-party path: the opposite version of the signer's
+    let signee = common::cert(if c.key.is_v6() { KeyKind::Ed25519V4 } else { KeyKind::Ed25519V6 }, 2);
+    let signee_pk = signee.primary_key.public_key();
+    let signee_frame = sigs::key_frame(&signee_pk.to_bytes().map_err(|e| e.to_string())?);
     let (typ, content): (u8, Vec<&[u8]>) = match c.path {
+        Path::ThirdPartyCertification => (0x13, vec![&signee_frame[..], &uid_prefix[..], &uid_body[..]]),
         Path::Detached | Path::PrefixedMessage | Path::OnePassMessage => (0x00, vec![&doc[..]]),
         Path::Cleartext => (0x01, vec![&canon_text[..]]),
         Path::Certification | Path::CertificatePublic | Path::CertificateSecret => (0x13, vec![&frame[..], &uid_prefix[..], &uid_body[..]]),
@@ -355,6 +364,7 @@ fn verify_on_path(c: &SigCase) -> Result<Result<(), String>, String> {
     Ok(match c.path {
         Path::Detached => sigs::sig_from_body(&body).and_then(|s| s.verify(pk, &doc[..]).map_err(|e| e.to_string())),
         Path::Certification => sigs::sig_from_body(&body).and_then(|s| s.verify_certification(pk, Tag::UserId, &uid).map_err(|e| e.to_string())),
+        Path::ThirdPartyCertification => sigs::sig_from_body(&body).and_then(|s| s.verify_third_party_certification(signee_pk, pk, Tag::UserId, &uid).map_err(|e| e.to_string())),
         Path::PrefixedMessage | Path::OnePassMessage => {
             let mut lit = vec![b'b', 0, 0, 0, 0, 0];
             lit.extend_from_slice(doc);
@@ -923,7 +933,7 @@ pub fn check(ctx: &Ctx) {
     ctx.run_space(
         "signature_rules_on_every_path",
         true,
-        "signatures assembled by the reference (digest per RFC 9580 5.2.4, signed with the key's raw signer) and pushed through 7 paths {Signature::verify, verify_certification, prefixed message, one-pass message, cleartext, public certificate import + verify_bindings, secret certificate import + verify_bindings}: (a) signature version 4/6 x key version 4/6 x 4 keys: misaligned => rejected, aligned control => accepted; (b) issuer-fingerprint subpacket version 4/6 vs signature version; (c) hashed subpacket type 0..127 x critical bit: RFC-unassigned + critical => rejected, any type non-critical (unassigned or private) => accepted; registered types with the critical bit: either verdict",
+        "signatures assembled by the reference (digest per RFC 9580 5.2.4, signed with the key's raw signer) and pushed through 8 paths {Signature::verify, verify_certification, third-party certification over a key of the other version, prefixed message, one-pass message, cleartext, public certificate import + verify_bindings, secret certificate import + verify_bindings}: (a) signature version 4/6 x key version 4/6 x 4 keys: misaligned => rejected, aligned control => accepted; (b) issuer-fingerprint subpacket version 4/6 vs signature version; (c) hashed subpacket type 0..127 x critical bit: RFC-unassigned + critical => rejected, any type non-critical (unassigned or private) => accepted; registered types with the critical bit: either verdict",
         sc.into_par_iter(),
         run_sig,
     );
